@@ -17,6 +17,9 @@ pub struct KnownFinding {
 	pub status: String,
 	#[serde(default)]
 	pub commit: Option<String>,
+	/// the run may go on after this finding fired (no derived damage)
+	#[serde(default, rename = "continue")]
+	pub cont: bool,
 }
 
 pub fn load_known() -> Vec<KnownFinding> {
@@ -262,6 +265,7 @@ pub fn cmd_batch(a: &Args) -> i32 {
 	let mut aborted: BTreeMap<String, u64> = BTreeMap::new();
 	let run_timeout = Duration::from_secs(if thorough { 600 } else { 300 });
 	let mut hashes: Vec<(u64, String)> = vec![];
+	let mut known_cont_hits: BTreeMap<String, u64> = BTreeMap::new();
 	loop {
 		while running.len() < jobs
 			&& launched < runs
@@ -303,6 +307,9 @@ pub fn cmd_batch(a: &Args) -> i32 {
 							*aborted.entry(ab.clone()).or_insert(0) += 1;
 						}
 						hashes.push((r.seed, r.trace_hash.clone()));
+						for kh in &r.known_hits {
+							*known_cont_hits.entry(kh.signature.clone()).or_insert(0) += 1;
+						}
 						if !r.violations.is_empty() {
 							if let Ok(t) = std::fs::read_to_string(&job.replay) {
 								if let Ok(rf) = serde_json::from_str::<ReplayFile>(&t) {
@@ -345,6 +352,16 @@ pub fn cmd_batch(a: &Args) -> i32 {
 	let mut known_hit: BTreeSet<String> = BTreeSet::new();
 	let replays_dir = format!("{}/replays", verif_root());
 	let _ = std::fs::create_dir_all(&replays_dir);
+	for (sig, n) in &known_cont_hits {
+		if let Some(k) = known.iter().find(|k| k.property == prop && k.signature == *sig) {
+			if known_hit.insert(sig.clone()) {
+				println!(
+					"KNOWN-FINDING: property={} {} [signature {}; {} occurrence(s)]",
+					prop, k.what, sig, n
+				);
+			}
+		}
+	}
 	for ((oracle, sig), list) in groups.iter() {
 		let kf = known
 			.iter()
